@@ -5,6 +5,7 @@
   guarded by the writer's own mutex slot) and splits every blocking operation at its `select`.
 -/
 import Proofs.Lemmas.InprocAll
+import Proofs.Lemmas.InprocUnaryAll
 
 namespace InprocStream
 
@@ -113,3 +114,25 @@ example : ∃ s, run (init 1 1 true) [.cSendBegin 1, .cSendEnq, .cSendBegin 2, .
   exact ⟨_, rfl, rfl, rfl, rfl⟩
 
 end InprocStream
+
+/-! ### the unary call (`Channel.Invoke`) -/
+namespace InprocUnary
+open InprocStream (Reason HErr Res codeOf translate)
+
+/-- **No goroutine is left behind**: once `Invoke` has returned (its deferred `cancel()` ends the
+    server goroutine's context), the goroutine can always run to its end by itself: every
+    remaining frame write has its context branch enabled, and then the channel is closed — once. -/
+theorem C05_unary_goroutine_finishes (s : St) (hret : s.returned = true) (hpc : s.pc = 1) :
+    (s.frames ≠ [] → (step s .wSkip).isSome) ∧ (s.frames = [] → (step s .wClose).isSome) := by
+  refine ⟨?_, ?_⟩
+  · intro hne
+    cases hf : s.frames with
+    | nil => simp [hf] at hne
+    | cons f rest => simp [step, hpc, hf, svrCtxDone, hret]
+  · intro he; simp [step, hpc, he]
+
+/-- the channel is closed at most once: `wClose` is enabled only before the close -/
+theorem C05_unary_close_once (s : St) (hpc : s.pc = 2) : step s .wClose = none := by
+  simp [step, hpc]
+
+end InprocUnary
